@@ -125,6 +125,21 @@ def run(rep, tier, seed, model_ok=True, effort=1):
                 inp = dict(version_pattern=vp, current_version=cur, args=args, commit=commit, exit=code, logs=logs[-4:])
                 if code == 0 or after != before or mut or (commit and prj.hooks_log()):
                     rep.violation("a rejected new version did not stop the update (exit %s, files changed: %s, vcs: %s)" % (code, after != before, mut), input=inp, **{"class": "rejected-not-stopped"})
+    # the new version already exists as a tag: refused before anything is written, whatever flags accompany --set-version
+    for extra in ([], ["--ignore-vcs-tag"], ["--ignore-vcs-tag", "--allow-dirty"]):
+        prj = project.TempProject("MAJOR.MINOR.PATCH", "1.0.4", files={"a.txt": ["ver = {version}"]}, commit=True, tag=True, vcs="fakegit",
+                                  vcs_cfg=dict(tags=["1.0.5", "1.0.4"], tags_branch=["1.0.4"], status="", remote=None), hooks={"pre": "ok"})
+        with prj:
+            before = prj.snapshot()
+            args = ["update", "--no-fetch", "--set-version", "1.0.5"] + extra
+            code, out, logs, exc = prj.run(impl, args)
+            after = prj.snapshot()
+            mut = [e["key"] for e in prj.vcs_log() if e["key"] in MUTATING]
+            rep.case(("existing-tag", tuple(extra)))
+            rep.count("rejected-version-runs")
+            if code == 0 or after != before or mut or prj.hooks_log():
+                rep.violation("a rejected new version (it already exists as a tag) did not stop the update (exit %s, files changed: %s, vcs: %s)" % (code, after != before, mut),
+                              input=dict(args=args, tags=["1.0.5", "1.0.4"], exit=code, logs=logs[-4:]), **{"class": "rejected-not-stopped"})
     # one file reached under two names (a symbolic link): the entry with the non-matching pattern must still stop the update
     import os
     for commit in (False, True):
